@@ -19,12 +19,12 @@ open Furiko Furiko.WQ Furiko.JobCtlPlan
 
 /-! ### what a pod task shows -/
 
-theorem podTask_fields {p : PodObj} {t : Task} (h : podTask p = some t) :
+theorem podTask_fields {now : Time} {p : PodObj} {t : Task} (h : podTask now p = some t) :
     t.name = p.pod.name ∧ t.ref.name = p.pod.name ∧ t.ref.status.result = p.pod.result ∧
     t.ref.deletedStatus = none ∧ t.ref.creationTimestamp = p.pod.creationTimestamp ∧
     t.deletionTimestamp = p.pod.deletionTimestamp := by
   unfold podTask Pod.task at h
-  cases hr : p.pod.taskRef with
+  cases hr : p.pod.taskRef now with
   | none => simp [hr] at h
   | some r =>
     simp only [hr, Option.some.injEq] at h
